@@ -203,6 +203,30 @@ def run(ctx):
         if i == 5:
             ctx.sample({'case': cfg.line(), 'ops': bt.cases[-1][1][:4], 'impl': bt.impls[-1][:4]})
     bt.flush('outdisp-random')
+    # 4b. many capture sections in one life of the dispatcher (3-7), with payloads below, at and above capture_maxbytes,
+    #     empty sections, plain output between them, random fragmentation: every section is its own event, nothing
+    #     of an earlier section may show up in a later one
+    for i in range(ctx.n(400, 6000)):
+        cap = rng.choice([1, 5, 10, 10, 64, 2 << 20])
+        pieces = []
+        for _ in range(rng.randrange(3, 8)):
+            if rng.random() < 0.6:
+                pieces.append(bytes(rng.choice(b'abcxyz \n') for _ in range(rng.randrange(0, 9))))
+            k = rng.choice([0, 0, 1, 2, cap - 1 if cap < 100 else 7, cap if cap < 100 else 9, cap + 1 if cap < 100 else 30, rng.randrange(0, 40)])
+            pieces.append(B + bytes(rng.choice(b'0123456789') for _ in range(max(0, k))) + E)
+        if rng.random() < 0.5:
+            pieces.append(bytes(rng.choice(b'abcxyz \n') for _ in range(rng.randrange(1, 30))))
+        stream = b''.join(pieces)
+        mode = rng.random()
+        if mode < 0.25:
+            chunks = [stream]
+        elif mode < 0.5:
+            chunks = [p for p in pieces if p]
+        else:
+            chunks = od.fragment(stream, od.gen_cuts(rng, len(stream), stream))
+        cfg = Cfg(capture=cap, log=1, channel=rng.choice(['stdout', 'stderr']), oev=rng.randrange(2), eev=rng.randrange(2))
+        bt.one(cfg, stream, chunks, rng.random() < 0.8, tag=':many-sections')
+    bt.flush('outdisp-many-sections')
     # 5. the helper functions against the real ones
     helper_correspondence(ctx)
 
